@@ -375,7 +375,8 @@ func (x *Exec) typeAssert(fr *Frame, st *State, ins *ssa.TypeAssert, b *ssa.Basi
 			dt := c.boxTypes[v.Name]
 			okc = c.BoolLit(types.Implements(dt, iface))
 		default:
-			if iface.NumMethods() == 0 {
+			if iface.NumMethods() == 0 || types.Implements(ins.X.Type(), iface) {
+				// static type already guarantees the methods: only nil fails
 				okc = c.Not(c.Eq(v, c.NilIface()))
 			} else {
 				okc = c.And(c.Not(c.Eq(v, c.NilIface())), c.App("implements_"+shortName(types.TypeString(at, nil)), c.Bool, v))
